@@ -134,6 +134,8 @@ func runC16(c *ev.Ctx) {
 			works = append(works, work{sq})
 		}
 	}
+	passBoundarySweep(c, seed)
+	generalPassSweep(c, seed)
 	workers := 16
 	parallelN(workers, len(works), func(i int) {
 		sq := works[i].sq
@@ -195,6 +197,135 @@ func runC16(c *ev.Ctx) {
 			}
 		}
 	})
+}
+
+// passBoundarySweep drives every registry runner with inputs tuned so that its P-value lands
+// around 0.01, and checks Pass == (P >= 0.01) there (min(P,P2) for the overlapping test).
+func passBoundarySweep(c *ev.Ctx, seed uint64) {
+	type param struct {
+		fam string
+		a   int
+	}
+	var params []param
+	for _, b := range []int{500, 508, 516, 524, 532, 540, 550, 565, 580, 600} {
+		params = append(params, param{"bias", b})
+	}
+	for _, st := range []int{510, 525, 540, 560, 600, 460, 430} {
+		params = append(params, param{"markov", st})
+	}
+	nFinal := 600
+	if c.Thorough() {
+		nFinal = 12000
+	}
+	parallelN(15, 15, func(k int) {
+		// sizes chosen so that the runner's P-value is not confined to a handful of discrete values
+		nbytes := map[int]int{2: 2500, 9: 12500, 12: 12500, 13: 5000, 14: 2500}[k]
+		if nbytes == 0 {
+			nbytes = 128
+		}
+		nFinal := nFinal
+		if k == 12 || k == 9 {
+			nFinal /= 5
+		}
+		eval := func(pm param, j int) (res *R.TestResult, sq gen.Seq, ok bool) {
+			sq = gen.Seq{Fam: pm.fam, N: nbytes * 8, A: pm.a, Seed: gen.Mix(seed, 1616, uint64(k), uint64(pm.a), uint64(j))}
+			data := gen.Pack(sq.Bits())
+			if p, _ := guard(func() { res = R.TestMethodArr[k].Runner(data) }); p || res == nil {
+				return nil, sq, false
+			}
+			return res, sq, true
+		}
+		minP := func(r *R.TestResult) float64 {
+			if k == 3 && r.P2 < r.P {
+				return r.P2
+			}
+			return r.P
+		}
+		best, bestHits := params[0], -1
+		for _, pm := range params {
+			hits := 0
+			for j := 0; j < 24; j++ {
+				if r, _, ok := eval(pm, j); ok {
+					if p := minP(r); p > 0.003 && p < 0.03 {
+						hits++
+					}
+				}
+			}
+			if hits > bestHits {
+				best, bestHits = pm, hits
+			}
+		}
+		below, above := 0.0, 1.0
+		near := 0
+		for j := 100; j < 100+nFinal; j++ {
+			r, sq, ok := eval(best, j)
+			if !ok {
+				c.Violation(fmt.Sprintf("runner%d:%s:panic", k+1, sq.String()), "registry runner panicked", "wellformed", wfCase{sq, Spec{T: fmt.Sprintf("runner%d", k+1)}})
+				continue
+			}
+			p := minP(r)
+			if p < 0.01 && p > below {
+				below = p
+			}
+			if p >= 0.01 && p < above {
+				above = p
+			}
+			in := p >= 0.009 && p <= 0.011
+			if in {
+				near++
+			}
+			c.Eval(ev.HashStr(sq.String()+fmt.Sprintf("|runner%d", k)), p > 0.001 && p < 0.1)
+			if r.Pass != (p >= 0.01) {
+				c.Violation(fmt.Sprintf("runner%d:%s:pass", k+1, sq.String()), fmt.Sprintf("Pass=%v but P=%v P2=%v", r.Pass, r.P, r.P2), "wellformed", wfCase{sq, Spec{T: fmt.Sprintf("runner%d", k+1)}})
+			}
+		}
+		c.Count("pass_flag_checks_near_threshold", int64(nFinal))
+		c.Count(fmt.Sprintf("runner%02d_results_with_P_in_[0.009,0.011]", k+1), int64(near))
+		c.Note(fmt.Sprintf("runner%02d_closest_P_around_0.01", k+1), map[string]interface{}{"input_family": fmt.Sprintf("%s/%d", best.fam, best.a), "largest_below": below, "smallest_at_or_above": above})
+	})
+}
+
+// generalPassSweep: many short generic inputs through all registry runners; Pass must equal
+// (P >= 0.01), with min(P,P2) for the overlapping test (P1 and P2 disagree about 0.01 on ~1% of inputs).
+func generalPassSweep(c *ev.Ctx, seed uint64) {
+	n12, n15 := 4000, 400
+	if c.Thorough() {
+		n12, n15 = 40000, 4000
+	}
+	var split int64
+	var mu sync.Mutex
+	parallel(n12+n15, func(i int) {
+		nbytes, top := 128, 12
+		if i >= n12 {
+			nbytes, top = 1121, 15
+		}
+		fam := []string{"uniform", "slight", "markov", "balanced"}[i%4]
+		sq := gen.Seq{Fam: fam, N: nbytes * 8, Seed: gen.Mix(seed, 1617, uint64(i))}
+		data := gen.Pack(sq.Bits())
+		for k := 0; k < top; k++ {
+			var r *R.TestResult
+			k := k
+			if p, m := guard(func() { r = R.TestMethodArr[k].Runner(data) }); p || r == nil {
+				c.Violation(fmt.Sprintf("runner%d:%s:panic", k+1, sq.String()), m, "wellformed", wfCase{sq, Spec{T: fmt.Sprintf("runner%d", k+1)}})
+				continue
+			}
+			minP := r.P
+			if k == 3 && r.P2 < minP {
+				minP = r.P2
+			}
+			if k == 3 && (r.P >= 0.01) != (r.P2 >= 0.01) {
+				mu.Lock()
+				split++
+				mu.Unlock()
+			}
+			if r.Pass != (minP >= 0.01) {
+				c.Violation(fmt.Sprintf("runner%d:%s:pass", k+1, sq.String()), fmt.Sprintf("Pass=%v but P=%v P2=%v", r.Pass, r.P, r.P2), "wellformed", wfCase{sq, Spec{T: fmt.Sprintf("runner%d", k+1)}})
+			}
+		}
+		c.Eval(ev.HashStr("sweep|"+sq.String()), true)
+	})
+	c.Count("generic_inputs_through_all_runners", int64(n12+n15))
+	c.Count("overlapping_inputs_where_P1_and_P2_disagree_about_0.01", split)
 }
 
 // ---------------- C17 ----------------
